@@ -139,6 +139,9 @@ func (r *Resolver) parentsOf(path string) ([]string, error) {
 			none = true
 		case nil:
 			none = true
+		default:
+			// a number, a map: not a way to name a parent
+			return nil, &ResolveError{"invalid $parent"}
 		}
 	}
 	if none {
